@@ -397,3 +397,26 @@ Definition p_psd_step (tolexp : Z) (n : nat) (X dX : dmat) (amax r : dy) : N :=
   let safe := dpd (S n) (dmaxpy n X r dX (tau r)) in
   let tight := deqb r amax || negb (dpd (S n) (dmaxpy n X r' dX (tau r'))) in
   ofb (dleb d0 r && dleb r amax && safe && tight).
+
+(** ** operation sequences on one cone object *)
+(** state after update_scaling; set_identity_scaling: model (w = e, η = 1, u, v, d) bit for bit *)
+Definition c_soc_identity (n : nat) (sparse : bool) (w : list float) (eta : float)
+           (u v : list float) (d : float) : N :=
+  let prev := mkScaling (repeat 0%float n) [] 0%float
+                        (if sparse then Some (mkSparse (repeat 0%float n) (repeat 0%float n) 0%float) else None) in
+  let sc := soc_set_identity_scaling F prev in
+  maxl [ cmpv_el 0%float (sc_w sc) w; cmpf_rel 0%float (sc_eta sc) eta;
+         match sc_sparse sc with
+         | Some sp => maxl [cmpv_el 0%float (sp_u sp) u; cmpv_el 0%float (sp_v sp) v; cmpf_rel 0%float (sp_d sp) d]
+         | None => ofb (Nat.eqb (length u) 0 && Nat.eqb (length v) 0)
+         end ].
+Definition c_nn_identity (w : list float) : N := cmpv_el 0%float (nn_set_identity_scaling F w) w.
+(** after an identity reset mul_W, mul_Winv and mul_Hs are the identity (exact dyadic, 2^tolexp
+    relative to max|x|) *)
+Definition p_identity_ops (tolexp : Z) (x Wx Winvx Hsx : list dy) : N :=
+  let sc := dnorminf x in let tol := dpow2 tolexp in
+  ofb (dallclose tol sc Wx x && dallclose tol sc Winvx x && dallclose tol sc Hsx x).
+(** two states (stored scaling and operator outputs) are bit-identical *)
+Definition c_bitsame (a b : list float) : N :=
+  ofb (Nat.eqb (length a) (length b) &&
+       forallb (fun p => PrimFloat.eqb (fst p) (snd p)) (combine a b)).
